@@ -1197,6 +1197,11 @@ func (t *Tree) Compile(file string, args []string, out io.Writer) (err error) {
 			elements := slices.Collect(n.Iterator())
 			elements[0].inheritParent(n)
 			for _, element := range elements {
+				if element.GetType() == TypeNil {
+					/* "()" emits nothing: what the sequence ends with is decided by the
+					   element before it */
+					continue
+				}
 				labelLast = compile(element, ko)
 			}
 		case TypePeekFor:
